@@ -49,20 +49,62 @@ def parse_frames(b):
 
 
 # ---------------------------------------------------------------- implementation drivers
+# how the decoder is driven - every way its public API offers must give the same frames:
+#   api:  'iter' (for … in u) | 'ready-pop' (while u.ready(): u.pop()) | 'unpack' (u.unpack() until StopIteration) | 'next' (next(u))
+#   feed: 'bytes' | 'bytearray' (a fresh one) | 'reused' (ONE scratch bytearray overwritten for every read, recv_into style)
+#         | 'memoryview'
+STYLE = {'api': 'iter', 'feed': 'bytes'}
+_SCRATCH = bytearray()
+
+
+def _drain(u, cap):
+    api = STYLE['api']
+    n = 0
+    if api == 'iter':
+        for op, data in u:
+            yield op, data
+    elif api == 'ready-pop':
+        while u.ready():
+            yield u.pop()
+    elif api == 'unpack':
+        while True:
+            try:
+                yield u.unpack()
+            except StopIteration:
+                return
+    else:
+        while True:
+            try:
+                yield next(u)
+            except StopIteration:
+                return
+
+
 def impl_feed(u, chunk, bound=None):
     """feed one chunk and iterate to exhaustion. returns (frames, restlen, err)"""
     frames = []
     err = 'none'
     n = 0
     try:
-        u.feed(chunk)
+        fd = STYLE['feed']
+        if fd == 'bytearray':
+            u.feed(bytearray(chunk))
+        elif fd == 'reused':
+            _SCRATCH[:] = chunk
+            u.feed(_SCRATCH)
+        elif fd == 'memoryview':
+            u.feed(memoryview(bytes(chunk)))
+        else:
+            u.feed(chunk)
         cap = (compat.unconsumed(u) // 5 + 3) if bound is None else bound
-        for op, data in u:
+        for op, data in _drain(u, cap):
             frames.append((op, bytes(data)))
             n += 1
             if n > cap:
                 err = 'NONTERMINATION'
                 break
+        if fd == 'reused':
+            _SCRATCH[:] = b'\xee' * len(_SCRATCH)     # the caller's buffer is overwritten by the next read
     except P.MessageTooBig:
         err = 'tooBig'
     except ProtocolException as e:
@@ -200,7 +242,15 @@ def sec_roundtrip(res, drv, rng, tier, n):
         res.evaluations += 1
         script = {'section': 'roundtrip', 'msg': [m[0]] + [x if isinstance(x, str) else hexin(x) for x in m[1:]]}
         try:
-            b = impl_build(m)
+            # the binary field (payload / nonce / digest) is handed to the builder as bytes, bytearray or memoryview:
+            # "arbitrary binary payload" - the frame must be the same
+            as_type = globals().get('_FORCED_BINARY_AS') or rng.choice(['bytes', 'bytes', 'bytearray', 'memoryview'])
+            m_in = m
+            if isinstance(m[-1], (bytes, bytearray)) and as_type != 'bytes':
+                m_in = m[:-1] + ((bytearray(m[-1]) if as_type == 'bytearray' else memoryview(bytes(m[-1]))),)
+            script['binary_as'] = as_type
+            b = impl_build(m_in)
+            b = bytes(b)
             impl = 'bytes ' + hexf(b)
         except struct.error:
             b, impl = None, 'raise'
@@ -345,6 +395,14 @@ def cut(stream, cuts):
 
 def run_chunked(res, drv, frames, tail, chunks, script, check_prompt=True):
     """feed chunks to impl (and model); monitor C06"""
+    STYLE.update(api=script.get('api', 'iter'), feed=script.get('feed', 'bytes'))
+    try:
+        return _run_chunked(res, drv, frames, tail, chunks, script, check_prompt)
+    finally:
+        STYLE.update(api='iter', feed='bytes')
+
+
+def _run_chunked(res, drv, frames, tail, chunks, script, check_prompt=True):
     res.evaluations += 1
     u = P.Unpacker()
     got = []
@@ -469,9 +527,12 @@ def sec_chunking(res, drv, rng, tier, n):
         if mode == 'empty-chunks':
             for _ in range(3):
                 chunks.insert(rng.randint(0, len(chunks)), b'')
-        script = {'section': 'chunking', 'frames': [[op, hexin(b)] for op, b in fs], 'tail': hexin(tail), 'cuts': cuts, 'mode': mode}
+        script = {'section': 'chunking', 'frames': [[op, hexin(b)] for op, b in fs], 'tail': hexin(tail), 'cuts': cuts, 'mode': mode,
+                  'api': rng.choice(['iter', 'iter', 'ready-pop', 'unpack', 'next']), 'feed': rng.choice(['bytes', 'bytes', 'bytearray', 'reused', 'memoryview'])}
         run_chunked(res, drv, fs, tail, chunks, script)
         res.note('chunking.' + mode)
+        res.note('chunking.api.' + script['api'])
+        res.note('chunking.feed.' + script['feed'])
         res.nontriv(['rnd', len(fs), len(stream), len(chunks), stream[:24].hex()])
         res.sample({k_: (v if k_ != 'cuts' else v[:10]) for k_, v in script.items()})
 
@@ -498,6 +559,27 @@ def sec_lattice(res, drv, rng, tier, n):
                     run_arbitrary(res, drv, chunks, script)
                     count += 1
             res.nontriv(['lat', op, ml])
+    # the same boundary headers BEHIND complete valid frames on the same decoder: the verdict on a header must not
+    # depend on what was decoded before it (a per-opcode limit remembered from the previous frame)
+    prefixes = [enc(3, b'\x01a\x01cPAY'), enc(1, b'\x02hp\x01\x02\x03\x04'), enc(2, b'\x01a' + b'\xaa' * 20), enc(0, b'err'), enc(4, b'\x01ac')]
+    for pre in prefixes:
+        for op in (0, 1, 2, 3, 4, 5):
+            lim = limit(op)
+            for ml in (lim - 1, lim, lim + 1, lim + 5, 281, 282, 283, P.MAXBUF, P.MAXBUF + 1, P.MAXBUF + 5, P.MAXBUF + 6):
+                hdr = struct.pack('!iB', ml, op)
+                for chunks in ([pre + hdr], [pre, hdr], [pre[:7], pre[7:] + hdr + b'\x00']):
+                    script = {'section': 'lattice', 'op': op, 'ml': ml, 'prefix': hexin(pre), 'chunks': [hexin(c) for c in chunks]}
+                    run_arbitrary(res, drv, chunks, script)
+                    count += 1
+    # ... and complete, VALID frames of the opcodes without an entry in the size table (SUBSCRIBE / UNSUBSCRIBE), larger
+    # than the small limits, behind OP_INFO / OP_AUTH
+    for pre in prefixes[1:3]:
+        for op in (4, 5):
+            for size in (281, 282, 300, 516, 5000):
+                fr = enc(op, b'\x01a' + b'c' * (size - 7))
+                script = {'section': 'lattice', 'op': op, 'ml': size, 'prefix': hexin(pre), 'chunks': [hexin(pre + fr)]}
+                run_arbitrary(res, drv, [pre + fr], script)
+                count += 1
     res.note('lattice.cases', count)
     # random byte strings, biased towards plausible headers
     for k in range(n):
@@ -514,7 +596,8 @@ def sec_lattice(res, drv, rng, tier, n):
         stream = b''.join(parts)
         cuts = sorted(set(rng.randint(1, len(stream) - 1) for _ in range(rng.randint(0, 6)))) if len(stream) > 1 else []
         chunks = cut(stream, cuts)
-        script = {'section': 'random-bytes', 'chunks': [hexin(c) for c in chunks]}
+        script = {'section': 'random-bytes', 'chunks': [hexin(c) for c in chunks],
+                  'api': rng.choice(['iter', 'iter', 'ready-pop', 'unpack', 'next']), 'feed': rng.choice(['bytes', 'bytes', 'bytearray', 'reused', 'memoryview'])}
         run_arbitrary(res, drv, chunks, script)
         res.nontriv(['rb', stream[:40].hex(), cuts])
         res.sample(script, limit=8)
@@ -522,6 +605,14 @@ def sec_lattice(res, drv, rng, tier, n):
 
 def run_arbitrary(res, drv, chunks, script):
     """C07 monitor + correspondence for arbitrary bytes"""
+    STYLE.update(api=script.get('api', 'iter'), feed=script.get('feed', 'bytes'))
+    try:
+        return _run_arbitrary(res, drv, chunks, script)
+    finally:
+        STYLE.update(api='iter', feed='bytes')
+
+
+def _run_arbitrary(res, drv, chunks, script):
     res.evaluations += 1
     u = P.Unpacker()
     lines, impl_lines = ['c.reset'], []
@@ -703,7 +794,9 @@ def replay(script, drv):
         orig = gen_msg
         try:
             globals()['gen_msg'] = lambda *_a, **_k: m
+            globals()['_FORCED_BINARY_AS'] = script.get('binary_as')
             sec_roundtrip(res, drv, rng, 'quick', 1)
         finally:
             globals()['gen_msg'] = orig
+            globals()['_FORCED_BINARY_AS'] = None
     return res
